@@ -6,7 +6,12 @@ Import ListNotations.
 Open Scope Z_scope.
 
 Inductive exn := TypeError | AttributeError | NameError | IndexError | AssertionError
-               | Unmodelled.   (* behaviour the model does not define: == on objects, < on tuples *)
+               | Unmodelled    (* behaviour the model does not define: == on objects, < on tuples, builtin
+                                  exceptions reaching `except Exception` or a `finally` *)
+               | UserExn (w : value).   (* an instance of a user exception class propagating out of a call *)
+
+Definition type_failure (e : exn) : bool :=
+  match e with TypeError | AttributeError => true | _ => false end.
 
 Inductive out (A : Type) := Val (a : A) | Exn (e : exn) | NoFuel.
 Arguments Val {A} a.
@@ -18,7 +23,30 @@ Definition obind {A B} (o : out A) (f : A -> out B) : out B :=
 
 Definition env := list (id * value).
 
-Inductive sres := Normal (en : env) | Returned (v : value).
+Inductive sres :=
+| Normal (en : env)
+| Returned (en : env) (v : value)
+| Broke (en : env)
+| Continued (en : env)
+| Raised (en : env) (w : value).      (* a user exception propagating inside the function; locals persist *)
+
+Definition env_of (r : sres) : env :=
+  match r with Normal en | Returned en _ | Broke en | Continued en | Raised en _ => en end.
+
+Definition set_env (r : sres) (en : env) : sres :=
+  match r with
+  | Normal _ => Normal en | Returned _ v => Returned en v | Broke _ => Broke en
+  | Continued _ => Continued en | Raised _ w => Raised en w
+  end.
+
+(* an expression inside a statement: a user exception becomes a statement-level Raised with the locals *)
+Definition slift (en : env) (o : out value) (k : value -> out sres) : out sres :=
+  match o with
+  | Val v => k v
+  | Exn (UserExn w) => Val (Raised en w)
+  | Exn e => Exn e
+  | NoFuel => NoFuel
+  end.
 
 Definition as_int (v : value) : option Z :=
   match v with VInt z => Some z | VBool b => Some (if b then 1 else 0) | _ => None end.
@@ -143,10 +171,32 @@ Definition bind_params (params : list (id * ty)) (vs : list value) : env :=
 Definition finish_call (r : out sres) : out value :=
   match r with
   | Val (Normal _) => Val VNone
-  | Val (Returned v) => Val v
+  | Val (Returned _ v) => Val v
+  | Val (Raised _ w) => Exn (UserExn w)
+  | Val (Broke _) => Exn Unmodelled
+  | Val (Continued _) => Exn Unmodelled
   | Exn e => Exn e
   | NoFuel => NoFuel
   end.
+
+Definition zrange (n : Z) : list Z := map Z.of_nat (seq 0 (Z.to_nat n)).
+
+Definition iter_values (rng : bool) (v : value) : out (list value) :=
+  if rng then match as_int v with Some n => Val (map VInt (zrange n)) | None => Exn TypeError end
+  else match v with
+       | VTuple vs => Val vs
+       | VStr s => Val (map (fun ch => VStr [ch]) s)
+       | _ => Exn TypeError
+       end.
+
+Definition catches (P : prog) (c : id) (w : value) : bool :=
+  match w with VObj d _ => subclass P d c | _ => false end.
+
+Definition bind_opt (en : env) (x : option id) (w : value) : env :=
+  match x with Some y => update en y w | None => en end.
+
+Definition unbind_opt (x : option id) (r : sres) : sres :=
+  match x with Some y => set_env r (remove (env_of r) y) | None => r end.
 
 Fixpoint eval (P : prog) (fuel : nat) (en : env) (e : expr) {struct fuel} : out value :=
   match fuel with
@@ -226,29 +276,69 @@ with exec (P : prog) (fuel : nat) (en : env) (s : stmt) {struct fuel} : out sres
   | O => NoFuel
   | S f =>
     match s with
-    | SAssign x e => obind (eval P f en e) (fun v => Val (Normal (update en x v)))
-    | SDef x e => obind (eval P f en e) (fun v => Val (Normal (update en x v)))
-    | SDecl x _ e => obind (eval P f en e) (fun v => Val (Normal (update en x v)))
-    | SIf c s1 s2 => obind (eval P f en c) (fun v => if truthy v then exec P f en s1 else exec P f en s2)
-    | SWhile c b =>
-        obind (eval P f en c) (fun v =>
+    | SAssign x e => slift en (eval P f en e) (fun v => Val (Normal (update en x v)))
+    | SDef x e => slift en (eval P f en e) (fun v => Val (Normal (update en x v)))
+    | SDecl x _ e => slift en (eval P f en e) (fun v => Val (Normal (update en x v)))
+    | SIf c s1 s2 => slift en (eval P f en c) (fun v => if truthy v then exec P f en s1 else exec P f en s2)
+    | SWhile c b els =>
+        slift en (eval P f en c) (fun v =>
           if truthy v
           then obind (exec P f en b) (fun r =>
                  match r with
-                 | Normal en' => exec P f en' (SWhile c b)
-                 | Returned w => Val (Returned w)
+                 | Normal en' => exec P f en' (SWhile c b els)
+                 | Continued en' => exec P f en' (SWhile c b els)
+                 | Broke en' => Val (Normal en')
+                 | _ => Val r
                  end)
-          else Val (Normal en))
-    | SReturn e => obind (eval P f en e) (fun v => Val (Returned v))
-    | SAssert e => obind (eval P f en e) (fun v => if truthy v then Val (Normal en) else Exn AssertionError)
+          else exec P f en els)
+    | SFor x rng e b els =>
+        slift en (eval P f en e) (fun v =>
+          obind (iter_values rng v) (fun vs =>
+            (fix go (l : list value) (en0 : env) {struct l} : out sres :=
+               match l with
+               | [] => exec P f en0 els
+               | w :: r =>
+                   obind (exec P f (update en0 x w) b) (fun res =>
+                     match res with
+                     | Normal en' => go r en'
+                     | Continued en' => go r en'
+                     | Broke en' => Val (Normal en')
+                     | _ => Val res
+                     end)
+               end) vs en))
+    | SBreak => Val (Broke en)
+    | SContinue => Val (Continued en)
+    | SRaise c args =>
+        slift en (eval P f en (ENew c args)) (fun w =>
+          if catches P exc_id w then Val (Raised en w) else Exn TypeError)
+    | STry b c x h els =>
+        match exec P f en b with
+        | Val (Normal en1) => exec P f en1 els
+        | Val (Raised en1 w) =>
+            if catches P c w
+            then obind (exec P f (bind_opt en1 x w) h) (fun r => Val (unbind_opt x r))
+            else Val (Raised en1 w)
+        | Exn e => if Nat.eqb c exc_id && negb (type_failure e) then Exn Unmodelled else Exn e
+        | o => o
+        end
+    | SFinally b fin =>
+        match exec P f en b with
+        | Val r =>
+            obind (exec P f (env_of r) fin) (fun r2 =>
+              match r2 with Normal en2 => Val (set_env r en2) | _ => Val r2 end)
+        | Exn e => if type_failure e then Exn e else Exn Unmodelled
+        | NoFuel => NoFuel
+        end
+    | SReturn e => slift en (eval P f en e) (fun v => Val (Returned en v))
+    | SAssert e => slift en (eval P f en e) (fun v => if truthy v then Val (Normal en) else Exn AssertionError)
     | SPass => Val (Normal en)
     | SSeq s1 s2 =>
         obind (exec P f en s1) (fun r =>
           match r with
           | Normal en' => exec P f en' s2
-          | Returned w => Val (Returned w)
+          | _ => Val r
           end)
-    | SExpr e => obind (eval P f en e) (fun _ => Val (Normal en))
+    | SExpr e => slift en (eval P f en e) (fun _ => Val (Normal en))
     | SLab _ s1 => exec P f en s1
     end
   end.
@@ -262,6 +352,3 @@ Definition call_fun (P : prog) (fuel : nat) (g : id) (vs : list value) : out val
       then finish_call (exec P fuel (bind_params (f_params fd) vs) (f_body fd))
       else Exn TypeError
   end.
-
-Definition type_failure (e : exn) : bool :=
-  match e with TypeError | AttributeError => true | _ => false end.
